@@ -139,6 +139,15 @@ partial def pVal : P PyVal := do
   | 'O' => pure .obj
   | _ => throw s!"bad-val {t}"
 
+def convTeams {α : Type} (f : Float → α) (ts : List (List (Rating Float))) : List (List (Rating α)) :=
+  ts.map (·.map (fun p => { id := p.id, mu := f p.mu, sigma := f p.sigma }))
+
+def backTeams {α : Type} (f : α → Float) (ts : List (List (Rating α))) : List (List (Rating Float)) :=
+  ts.map (·.map (fun p => { id := p.id, mu := f p.mu, sigma := f p.sigma }))
+
+def convGamma {α : Type} (f : Float → α) : GammaFn Float → GammaFn α
+  | .dflt => .dflt | .const k => .const (f k) | .invK => .invK | .rankDep => .rankDep | .sq => .sq | .zero => .zero
+
 def showExc : Except PyExc Unit → String
   | .ok () => "ok"
   | .error .TypeError => "TypeError"
@@ -168,6 +177,51 @@ def runOp : P String := do
     let P : Params Float := { beta := beta, kappa := kappa, tau := tau, limitSigma := ls, gamma := g }
     let res := rate k lv P PyNum.le PyNum.neg teams outcome { tau := tauO, limitSigma := lsO }
     if allFinite res then pure ("OK " ++ showTeams res) else pure ("NONFINITE " ++ showTeams res)
+  | "HRATE" =>
+    -- the same model terms evaluated on big floats (192 bits), exact or code leaves
+    let k ← pKind
+    let lvTok ← tok
+    let beta ← pFloat
+    let kappa ← pFloat
+    let tau ← pFloat
+    let ls ← pBool
+    let g ← pGamma
+    let tauO ← pOptFloat
+    let lsO ← pOptBool
+    let oc ← tok
+    let teams ← pTeams
+    let n := teams.length
+    let outcome : Outcome PyNum ← match oc with
+      | "N" => pure Outcome.omitted
+      | "R" => Outcome.ranks <$> pMany n pNum
+      | "S" => Outcome.scores <$> pMany n pNum
+      | t => throw s!"bad-outcome {t}"
+    let lv : Leaves HP.BF := if lvTok == "e" then exactLeaves else codeLeaves
+    let c := HP.ofFloat
+    let P : Params HP.BF := { beta := c beta, kappa := c kappa, tau := c tau, limitSigma := ls, gamma := convGamma c g }
+    let res := rate k lv P PyNum.le PyNum.neg (convTeams c teams) outcome { tau := tauO.map c, limitSigma := lsO }
+    pure ("OK " ++ showTeams (backTeams HP.toFloat res))
+  | "HPWIN" =>
+    let beta ← pFloat
+    let teams ← pTeams
+    pure ("OK " ++ " ".intercalate ((predictWin (HP.ofFloat beta) (convTeams HP.ofFloat teams)).map (fun x => toHex (HP.toFloat x))))
+  | "HPDRAW" =>
+    let beta ← pFloat
+    let teams ← pTeams
+    pure ("OK " ++ toHex (HP.toFloat (predictDraw (HP.ofFloat beta) (convTeams HP.ofFloat teams))))
+  | "HPRANK" =>
+    let beta ← pFloat
+    let teams ← pTeams
+    pure ("OK " ++ " ".intercalate ((predictRank (HP.ofFloat beta) (convTeams HP.ofFloat teams)).map
+      (fun x => s!"{x.1}:{toHex (HP.toFloat x.2)}")))
+  | "HLEAFS" =>
+    let x ← pFloat
+    let t ← pFloat
+    let l := HP.leaves 128 (HP.ofFloat x) (HP.ofFloat t)
+    pure ("OK " ++ " ".intercalate ([l.v, l.w, l.vt, l.wt, l.PhiXT].map (fun y => toHex (HP.toFloat y))))
+  | "HPHI" =>
+    let x ← pFloat
+    pure ("OK " ++ toHex (HP.toFloat (HP.Phi 128 (HP.ofFloat x))))
   | "PWIN" =>
     let beta ← pFloat
     let teams ← pTeams
